@@ -10,6 +10,7 @@ import (
 	"net/http"
 	"runtime"
 	"sync"
+	"time"
 
 	"github.com/modelcontextprotocol/go-sdk/internal/verifharness/vh"
 	"github.com/modelcontextprotocol/go-sdk/jsonrpc"
@@ -34,6 +35,7 @@ type PairOpts struct {
 	MaxRetries           int
 	DisableStandaloneSSE bool
 	AsyncDelete          bool
+	BodyLatency          func(req *http.Request, reqBody []byte) time.Duration // see InProc.BodyLatency
 	OAuth                auth.OAuthHandler // streamable client: OAuthHandler (the server need not require authorization)
 }
 
@@ -157,7 +159,7 @@ func Connect(ctx context.Context, o PairOpts) (*Pair, error) {
 		}
 		h := mcp.NewStreamableHTTPHandler(func(*http.Request) *mcp.Server { return o.Server }, &ho)
 		p.H = h
-		p.InProc = &InProc{Handler: h, Log: o.Log, AsyncDelete: o.AsyncDelete}
+		p.InProc = &InProc{Handler: h, Log: o.Log, AsyncDelete: o.AsyncDelete, BodyLatency: o.BodyLatency}
 		ct := &mcp.StreamableClientTransport{Endpoint: "http://example.test/mcp", HTTPClient: p.InProc.Client(), MaxRetries: o.MaxRetries, DisableStandaloneSSE: o.DisableStandaloneSSE, OAuthHandler: o.OAuth}
 		cs, err := o.Client.Connect(ctx, maybeWrap(ct, o.WrapClient), copts)
 		if err != nil {
